@@ -281,6 +281,15 @@ def run_case(rec, case):
                 stamps.append([(f["t1"] - dt.timedelta(seconds=1)).isoformat(), None, "closest"])
             rec.count("closest.direct_hit_then_inside", (len(stamps) - len(case["stamps"])) // 3)
         for idx, (ts, filters, via) in enumerate(stamps):
+            if case.get("new_coverage_s") is not None and idx == case.get("new_coverage_after", 0) \
+                    and layout.end_style == "cov":
+                # object history: the files' duration is re-assigned on the live object after searches
+                newc = dt.timedelta(seconds=case["new_coverage_s"])
+                fs.time_coverage = newc
+                layout.coverage = newc
+                for f in files:
+                    f["t1"] = f["t0"] + newc
+                rec.count("closest.time_coverage_reassigned")
             if late and idx == arrive_at:
                 for p in late:
                     os.renames(hold + p[len(base):], p)
@@ -291,7 +300,8 @@ def run_case(rec, case):
             check_lookup(rec, fs, cur, layout, files, dt.datetime.fromisoformat(ts), filters,
                          set(names), periods, case, via, shared=shared,
                          sub_case=dict(case, stamps=stamps[:idx + 1], extra_stamps_done=True)
-                         if (late or len(stamps) > len(case["stamps"])) else None)
+                         if (late or len(stamps) > len(case["stamps"])
+                             or case.get("new_coverage_s") is not None) else None)
         if lazy is not None:
             lazy.close()
     finally:
@@ -388,6 +398,28 @@ def name_order_case(rng):
     return case
 
 
+def coverage_reassigned_case(rng):
+    """Template without end fields: searches, then another time_coverage is assigned to the live object and
+    the same timestamps are asked again (a gap becomes covered, or the other way round)."""
+    dirs = rng.choice([d for d in fm.DIR_LAYOUTS if d[2] == "day" and not any("{sat}" in x or "*" in x for x in d[1])])
+    grow = rng.random() < 0.5
+    c0, c1 = (600, 3600) if grow else (3600, 600)
+    layout = fm.Layout(dirs[0], dirs[1], dirs[2], "cov", with_sat=rng.random() < 0.5, wildcard=False,
+                       coverage=D(seconds=c0))
+    day = dt.datetime(2018, rng.randrange(1, 13), rng.randrange(2, 27), rng.choice([0, 5, 13]))
+    files = [{"id": k, "t0": day + D(hours=k), "t1": day + D(hours=k, seconds=c0), "sat": "n18"}
+             for k in range(3)]
+    case = c01.make_case([layout], files, [], [], [])
+    case["kind"] = "closest"
+    case["no_sibling"] = True
+    q = [day + D(minutes=5), day + D(minutes=50), day + D(hours=1, minutes=40)]
+    case["stamps"] = [[t.isoformat(), None, "closest"] for t in q] + \
+                     [[t.isoformat(), None, via] for t in q for via in ("closest", "getitem")]
+    case["new_coverage_s"] = c1
+    case["new_coverage_after"] = len(q)
+    return case
+
+
 def handler_coverage_case(rng):
     """Names show the start only, the file handler knows the real (longer) coverage: a direct name hit on
     the long file, then a timestamp late in its coverage that is nearer to the next file's start."""
@@ -417,6 +449,7 @@ def run_shard(spec, rec):
         rec.count("closest.name_order_cases")
         run_case(rec, handler_coverage_case(rng))
         rec.count("closest.handler_coverage_cases")
+        run_case(rec, coverage_reassigned_case(rng_for(spec["seed"], "c16-cov", spec["shard"] * 2 + _)))
     for i in range(spec["n"]):
         case = gen_case(rng)
         if i == 0:
